@@ -1,36 +1,119 @@
 import Driver.Util
-import Verif.Model.Ring
-/-! Model driver for suite c20 (op language: see /verif/go/harness/suite_c20.go). -/
+import Verif.Model.RingGlue
+/-! Model driver for suites c20 and c20glue (op languages: see /verif/go/harness/suite_c20.go, suite_c20glue.go).
+Runs the heap-level ring with the glue (`Verif.Model.RingGlue`): entries are objects, `GetLogs` returns pointers. -/
 namespace Driver.Ring
 open Verif.Ring Driver
 
 /-- `logging.BufferSize`; the suite's `cap` op compares it with the constant in the Go source -/
 def bufferSize : Nat := 1024
 
-abbrev St := State String
+structure St where
+  /-- the memory loggers (one for c20 / `new`; three after `init`: Logger, N2n, MemUsage) -/
+  rings : Array GState := #[initG bufferSize (-1)]
+  /-- per ring: the level from which zap attaches a stack trace (`AddStacktrace`); 100 = never -/
+  stackLvl : Array Int := #[100]
+  /-- zap loggers: (ring, core) -/
+  loggers : Array (Nat × Nat) := #[(0, 0)]
+  /-- pointer lists returned by the `getlogs` ops so far (ring 0) -/
+  snaps : Array (List Nat) := #[]
 
 def fmt (ms : List String) : String :=
   if ms.isEmpty then "ok 0 -" else "ok " ++ toString ms.length ++ " " ++ ",".intercalate ms
 
+def lvlOf (s : String) : Int :=
+  if s = "debug" then -1 else if s = "info" then 0 else if s = "warn" then 1 else if s = "error" then 2 else 100
+
+def lvlName (l : Int) : String :=
+  if l = -1 then "DEBUG" else if l = 0 then "INFO" else if l = 1 then "WARN" else if l = 2 then "ERROR" else "L" ++ toString l
+
+def shownStr (e : Shown) : String :=
+  lvlName e.lvl ++ ":" ++ e.msg ++ ":" ++
+    (if e.fields.isEmpty then "-" else ";".intercalate (e.fields.map (fun (k, v) => k ++ "=" ++ v))) ++ ":" ++
+    (if e.stack then "S" else "-")
+
+def fmtShown (es : List Shown) : String :=
+  if es.isEmpty then "ok 0 -" else "ok " ++ toString es.length ++ " " ++ "|".intercalate (es.map shownStr)
+
+/-- write through zap logger `k` -/
+def logVia (s : St) (k : Nat) (lvl : Int) (msg : String) (fields : List (String × String)) : St :=
+  match s.loggers[k]? with
+  | none => s
+  | some (r, c) =>
+    match s.rings[r]? with
+    | none => s
+    | some g =>
+      let e : LEntry := { lvl := lvl, msg := msg, fields := fields, stack := decide (s.stackLvl.getD r 100 ≤ lvl) }
+      { s with rings := s.rings.set! r (logG g c e) }
+
 def logn (s : St) (k : Nat) : Nat → Nat → St
   | 0, _ => s
-  | c + 1, start => logn (write s k ("m" ++ toString start)) k c (start + 1)
+  | c + 1, start => logn (logVia s k 0 ("m" ++ toString start) []) k c (start + 1)
+
+def logfn (s : St) (k : Nat) (lvl : Int) : Nat → Nat → St
+  | 0, _ => s
+  | c + 1, start => logfn (logVia s k lvl ("m" ++ toString start) []) k lvl c (start + 1)
+
+def withVia (s : St) (k : Nat) : St × String :=
+  match s.loggers[k]? with
+  | none => (s, "bad-op")
+  | some (r, c) =>
+    match s.rings[r]? with
+    | none => (s, "bad-op")
+    | some g =>
+      let g' := deriveG g c
+      ({ s with rings := s.rings.set! r g', loggers := s.loggers.push (r, g.h.ring.cores.length) },
+        "ok " ++ toString s.loggers.size)
+
+def parseKV (w : String) : String × String :=
+  match w.splitOn "=" with
+  | [k, v] => (k, v)
+  | _ => (w, "")
 
 def step (s : St) (w : List String) : St × String :=
+  let ring0 := s.rings.getD 0 (initG bufferSize (-1))
   match w with
-  | ["cap"] => (s, "ok " ++ toString s.slots.length)
-  | ["with", k] =>
-    let k := k.toNat!
-    if k < s.cores.length then (derive s k, "ok " ++ toString s.cores.length) else (s, "bad-op")
+  | ["cap"] => (s, "ok " ++ toString ring0.h.ring.slots.length)
+  | ["new", min, stk] =>
+    ({ rings := #[initG bufferSize (lvlOf min)], stackLvl := #[lvlOf stk], loggers := #[(0, 0)], snaps := #[] }, "ok")
+  | ["init", mode] =>
+    let dev := mode = "development"
+    ({ rings := #[initG bufferSize (if dev then -1 else 2), initG bufferSize 0, initG bufferSize 0],
+       stackLvl := if dev then #[1, 1, 1] else #[2, 2, 2],
+       loggers := #[(0, 0), (1, 0), (2, 0)], snaps := #[] }, "ok")
+  | ["with", k] => withVia s k.toNat!
+  | ["with", k, _, _] => withVia s k.toNat!
   | ["log", k, m] =>
     let k := k.toNat!
-    if k < s.cores.length then (write s k m, "ok") else (s, "bad-op")
+    if k < s.loggers.size then (logVia s k 0 m [], "ok") else (s, "bad-op")
+  | "logf" :: k :: lvl :: m :: kvs =>
+    let k := k.toNat!
+    if k < s.loggers.size then (logVia s k (lvlOf lvl) m (kvs.map parseKV), "ok") else (s, "bad-op")
+  | ["logfn", k, lvl, c, st] =>
+    let k := k.toNat!
+    if k < s.loggers.size then (logfn s k (lvlOf lvl) c.toNat! st.toNat!, "ok") else (s, "bad-op")
   | ["logn", k, c, st] =>
     let k := k.toNat!
-    if k < s.cores.length then (logn s k c.toNat! st.toNat!, "ok") else (s, "bad-op")
-  | ["getlogs"] => (s, fmt (getLogs s))
-  | ["writelogs"] => (s, fmt (getLogs s))
+    if k < s.loggers.size then (logn s k c.toNat! st.toNat!, "ok") else (s, "bad-op")
+  | ["getlogs"] =>
+    let refs := getLogsH ring0.h
+    ({ s with snaps := s.snaps.push refs }, fmt ((deref ring0.h refs).map (·.msg)))
+  | ["writelogs"] => (s, fmt ((writeLogs 1 ring0).map (·.msg)))
+  | ["reread", k] =>
+    match s.snaps[k.toNat!]? with
+    | some refs => (s, fmt ((deref ring0.h refs).map (·.msg)))
+    | none => (s, "bad-op")
+  | ["glogs"] => (s, fmtShown (writeLogs 3 ring0))
+  | ["render", d] =>
+    match d.toInt? with
+    | some d => (s, fmtShown (writeLogs d ring0))
+    | none => (s, "bad-op")
+  | ["http", which, tok] =>
+    let r := if which = "log" then 0 else if which = "n2n" then 1 else 2
+    match s.rings[r]? with
+    | some g => (s, fmtShown (handler (if tok = "-" then "" else tok) g))
+    | none => (s, "bad-op")
   | _ => (s, "bad-op")
 
-def main : IO Unit := loop (init bufferSize : St) step
+def main : IO Unit := loop ({} : St) step
 end Driver.Ring
